@@ -208,6 +208,10 @@ def random_history(rec, rng, length):
         rec.cfg("new", n, m, lo, up)
     xs = [rng.random() for _ in range(4)] + [0.0, 1.0, 0.5, 0.75]
     boxes = [rand_box(rng, n) for _ in range(2)] + [(o[1], o[2]) for o in objs]
+    # boxes that differ from another one only slightly (a zoom or shift by a relative 1e-7 .. 1e-6): still different configurations
+    for (blo, bup) in list(boxes[:2]):
+        d = rng.choice([1e-7, 3e-7, 1e-6])
+        boxes.append(([a + d * (abs(a) + (b - a)) for a, b in zip(blo, bup)], [b - d * (b - a) for a, b in zip(blo, bup)]))
     ypts = {}
     arrays = []
     for _ in range(length):
@@ -248,6 +252,11 @@ def random_history(rec, rng, length):
                 scribble()
             o[1], o[2] = list(lo2), list(up2)
             rec.cfg("setbounds", n, m, lo2, up2)
+            # reference: what an object built for these bounds answers (first in the memo of this configuration)
+            fresh = make_evolvent(np.array(lo2, dtype=np.double), np.array(up2, dtype=np.double), n, m, lo2, up2)
+            for x in rng.sample(xs, 3):
+                rec.image(fresh, x)
+            rec.image(ev, rng.choice(xs))
 
 
 def run(ctx):
